@@ -92,3 +92,23 @@ package atree
 //@   loop 6: invariant len(parentOf) == refsEnumerated - old(refsEnumerated) && (forall x SlabID :: has(parentOf, x) ==> has(slabs, x) && has(slabs, parentOf[x])) && (forall k :: 0 <= k && k < len(leaves) ==> has(slabs, leaves[k])) &&
 //@        (forall x SlabID :: has(visited, x) ==> has(slabs, x)) && (forall x SlabID :: has(visited, x) && x != id && has(parentOf, x) ==> ownerOf(x) == ownerOf(parentOf[x])) &&
 //@        (forall x SlabID :: has(rootsMap, x) ==> has(slabs, x) && !has(parentOf, x)) && has(visited, id)
+
+//@ # ---- transitive child references: every reference met is classified by the storage view (write set first, then cache, then
+//@ # ledger): resolvable references are those the view resolves, broken ones those it does not; the traversal changes no view
+//@ pred refsClassified(s *PersistentSlabStorage, refs []SlabID, broken []SlabID) =
+//@      (forall k :: 0 <= k && k < len(refs) ==> view(s, refs[k]) != nil) && (forall k :: 0 <= k && k < len(broken) ==> view(s, broken[k]) == nil)
+
+//@ func (s *PersistentSlabStorage) getAllChildReferences(slab) (references, brokenReferences, err)  serves C08 C20
+//@   requires invCoh(s) && s.baseStorage != nil && slab != nil
+//@   ensures[C20] err == nil ==> refsClassified(s, references, brokenReferences) && (forall o *PersistentSlabStorage :: o != s ==> o.cache == old(o.cache))
+//@   ensures[C08] (forall j SlabID :: view(s, j) == old(view(s, j))) && s.deltas == old(s.deltas) && invCoh(s) && sameLedger()
+//@   ensures err != nil ==> categorised(err)
+//@   modifies s.cache, ghost.refsEnumerated, alloc
+//@   loop 1: invariant invCoh(s) && s.deltas == old(s.deltas) && sameLedger() && (forall j SlabID :: view(s, j) == old(view(s, j))) && refsClassified(s, references, brokenReferences) && (forall o *PersistentSlabStorage :: o != s ==> o.cache == old(o.cache))
+//@   loop 2: invariant invCoh(s) && s.deltas == old(s.deltas) && sameLedger() && (forall j SlabID :: view(s, j) == old(view(s, j))) && refsClassified(s, references, brokenReferences) && (forall o *PersistentSlabStorage :: o != s ==> o.cache == old(o.cache))
+
+//@ func (s *PersistentSlabStorage) GetAllChildReferences(id) (references, brokenReferences, err)  serves C08 C20
+//@   requires invCoh(s) && s.baseStorage != nil
+//@   ensures[C20] err == nil ==> view(s, id) != nil && refsClassified(s, references, brokenReferences) && (forall o *PersistentSlabStorage :: o != s ==> o.cache == old(o.cache))
+//@   ensures[C08] (forall j SlabID :: view(s, j) == old(view(s, j))) && s.deltas == old(s.deltas)
+//@   modifies s.cache, ghost.refsEnumerated, alloc
